@@ -266,6 +266,10 @@ def c05(ctx):
     # (quick: 6.5 s, thorough: also 21 s; a consumer-side time-out below that is detected)
     slow = [{"mode": "free", "W": w, "N": 4, "seed": 3, "slow": 0.0, "slow_item": 1, "slow_ms": ms}
             for (w, ms) in ([(2, 6500)] if q else [(1, 6500), (2, 6500), (3, 21000)])]
+    # ... and every position of a moderately slow item (250 ms, far beyond any spin / back-off) for small W x N:
+    # the other workers run ahead, wait for their turn, see the upstream exhausted, while one item is still being processed
+    slow += [{"mode": "free", "W": w, "N": n, "seed": 5, "slow": 0.0, "slow_item": k, "slow_ms": 250}
+             for w in ((2, 3, 4) if q else (1, 2, 3, 4, 6)) for n in ((2, 4, 5) if q else (1, 2, 3, 4, 5, 7)) for k in range(n)]
     pipe_judge(ctx, slow, "B-slow-item", C05_CLAUSES)
 
 
@@ -581,10 +585,12 @@ def bpe_design(ctx):
 
 def bpe_runs(ctx, prefixes):
     q = ctx.quick()
-    cases, n = vlib.tlc_generate(ctx, "Gen_Tok", tok_cfg(4 if q else 5, 2, 3, 3, "{0}"), "gen-bpe.ndjson", env={"FAMILY": "bpe"})
+    # (all tables <= 3 entries over 2 byte slots) x (all texts up to length 4 over {ws, slot 1, slot 2}); a longer text bound
+    # multiplies the judged encodings (3368 configurations x 364 texts at length 5) beyond a useful run time
+    cases, n = vlib.tlc_generate(ctx, "Gen_Tok", tok_cfg(4, 2, 3, 3, "{0}"), "gen-bpe.ndjson", env={"FAMILY": "bpe"})
     tok_judge(ctx, cases, "A-ab", prefixes)
     if not q:
-        cases3, n = vlib.tlc_generate(ctx, "Gen_Tok", tok_cfg(4, 3, 2, 3, "{0}"), "gen-bpe3.ndjson", env={"FAMILY": "bpe"})
+        cases3, n = vlib.tlc_generate(ctx, "Gen_Tok", tok_cfg(3, 3, 2, 3, "{0}"), "gen-bpe3.ndjson", env={"FAMILY": "bpe"})
         tok_judge(ctx, cases3, "A-umlaut", prefixes, extra_case={"balpha": "umlaut"})
     ctx.exhaustive = True
     rnd = ctx.path("rnd.ndjson")
